@@ -352,7 +352,7 @@ def i_CLIPU(ins, fmap):
 def i_DIV1(ins, fmap):
     Rm, Rn = ins.operands
     oldq = fmap(Q)
-    q = fmap((cst(0x80000000, 32) & Rn) != bit0)
+    q = fmap((cst(0x80000000, 32) & Rn) != 0)
     rn = fmap(Rn << 1)
     rn |= fmap(T.zeroextend(32))
     # case oldq 0, M 0:
